@@ -37,7 +37,7 @@ RULE = (
 ASSUMPTIONS = [
     "in-process flowmark.cli.main(argv) with fake std streams stands for the real CLI (validated against real subprocesses in the thorough tier)",
     "PYTHONUTF8=1: files are decoded as UTF-8 with universal newlines, stdin as UTF-8/surrogateescape without newline translation",
-    "no flowmark configuration file exists in or above the scratch tree (C16 is not claimed)",
+    "a config file, when the tree has one, sits in the project directory (the cwd) and holds formatting keys only; none exists above the scratch tree",
     "reference = flowmark.reformat_text of the current tree (a change that alters formatting everywhere but keeps agreement does not alarm)",
 ]
 COMPONENTS = {
@@ -355,6 +355,26 @@ def gen_case(run_seed: int, tier: str, index: int | None = None) -> dict[str, An
         if lname not in tree:
             tree[lname] = {"l": os.path.relpath(tgt, where or ".")}
             names = names + [lname]
+    # sometimes the project has a config file with formatting settings: one more way of giving the
+    # options to the command line (explicit flag > config file > default; --auto fixes its four
+    # switches; the file API does not read it)
+    cg = sub_rng(run_seed, "config")
+    if cg.random() < 0.1:
+        vals: dict[str, Any] = {}
+        if cg.random() < 0.7:
+            vals["width"] = cg.choice([30, 40, 60, 100])
+        for kname in ("semantic", "cleanups", "smartquotes", "ellipses"):
+            if cg.random() < 0.4:
+                vals[kname] = cg.random() < 0.7
+        if cg.random() < 0.4:
+            vals["list-spacing"] = cg.choice(corpus.LIST_SPACINGS)
+        body = "".join(f"{k_} = {('true' if v_ else 'false') if isinstance(v_, bool) else (v_ if isinstance(v_, int) else chr(34) + v_ + chr(34))}\n" for k_, v_ in vals.items())
+        cname = cg.choice([".flowmark.toml", "flowmark.toml", "pyproject.toml"])
+        if cname == "pyproject.toml":
+            body = '[project]\nname = "x"\n\n[tool.flowmark]\n' + body
+        elif cg.random() < 0.3:
+            body = "[formatting]\n" + body
+        tree[cname] = {"f": b2j(body.encode())}
     k = sub_rng(run_seed, "knobs")
     invs = []
     for j in range(w.choice([1, 2, 3, 3, 4, 6])):
@@ -477,10 +497,69 @@ def partial_match(model: Model, pred: Pred, stdin: bytes, exit_class: str, stdou
     return True
 
 
+_CUR_M: dict[str, Any] = {}  # the model tree the invocation being predicted sees (config look-up)
+
+_FLAG_OF = {"-w": "width", "--width": "width", "-s": "semantic", "--semantic": "semantic", "-c": "cleanups", "--cleanups": "cleanups",
+            "--smartquotes": "smartquotes", "--ellipses": "ellipses", "--list-spacing": "list_spacing"}
+
+
+def explicit_flags(argv: list[str]) -> set[str]:
+    """Option names actually typed on the command line (all spellings opts_argv produces)."""
+    out: set[str] = set()
+    for a in argv:
+        if not a.startswith("-") or a == "-":
+            continue
+        head = a.split("=", 1)[0]
+        if head in _FLAG_OF:
+            out.add(_FLAG_OF[head])
+        elif head.startswith("--"):
+            m = [v for k, v in _FLAG_OF.items() if k.startswith("--") and k.startswith(head)]
+            if len(set(m)) == 1:
+                out.add(m[0])  # unambiguous prefix
+        elif len(a) > 2 and a[:2] == "-w":
+            out.add("width")  # glued short form
+    return out
+
+
+def config_values(M: dict[str, Any]) -> dict[str, Any]:
+    """Formatting settings of the config file in the project directory (the cwd), if any."""
+    import tomllib
+
+    for name in (".flowmark.toml", "flowmark.toml", "pyproject.toml"):
+        data = M.get(name)
+        if not isinstance(data, (bytes, bytearray)):
+            continue
+        try:
+            doc = tomllib.loads(bytes(data).decode("utf-8"))
+        except Exception:  # noqa: BLE001
+            if name == "pyproject.toml":
+                continue
+            return {}
+        if name == "pyproject.toml":
+            if "flowmark" not in doc.get("tool", {}):
+                continue
+            doc = doc["tool"]["flowmark"]
+        flat: dict[str, Any] = {}
+        for k, v in doc.items():
+            if isinstance(v, dict):
+                flat.update(v)
+            else:
+                flat[k] = v
+        return {k.replace("-", "_"): v for k, v in flat.items()}
+    return {}
+
+
 def eff_opts(inv: dict[str, Any], auto: bool) -> dict[str, Any]:
     o = dict(inv["opts"])
     if auto:
         o.update(corpus.AUTO_OPTS)
+    if inv.get("argv") is not None:
+        cfg = config_values(_CUR_M)
+        if cfg:
+            typed = explicit_flags(inv["argv"])
+            for k in ("width", "semantic", "cleanups", "smartquotes", "ellipses", "list_spacing"):
+                if k in cfg and k not in typed and not (auto and k in ("semantic", "cleanups", "smartquotes", "ellipses")):
+                    o[k] = cfg[k]
     return o
 
 
@@ -539,6 +618,8 @@ class Pred:
 
 
 def predict(model: Model, inv: dict[str, Any], M: dict[str, bytes]) -> Pred:
+    global _CUR_M
+    _CUR_M = M
     p = Pred()
     p.M = dict(M)
     form = inv["form"]
@@ -849,6 +930,8 @@ def _run_case(case: dict[str, Any], scratch: str, want_trace: bool) -> dict[str,
     model = Model()
     if case["history"]:
         inv0 = case["history"][0]
+        global _CUR_M
+        _CUR_M = M
         o0 = eff_opts(inv0, "--auto" in (inv0.get("argv") or []))
         for rel, ent in case["tree"].items():
             if ent.get("pre") and not is_link(M[rel]):
